@@ -7,7 +7,7 @@ CFG = dict(
                'comparing every answer and the final bit array with the model inside Coq.',
     level_note='Trusted: Coq kernel, the harness printers, hooks exposing hash_pair/bits; SipHash is an input. The Gallina model is hand-written; '
                'its agreement with the Rust code is checked by correspondence, not proved.',
-    bin='c36', n_quick=400, n_thorough=8000,
+    bin='c36', n_quick=400, n_thorough=2000,
     corr_name='Model/Bloom.v vs BloomFilter/HashIndex',
     rule='random bloom histories (insert/clear/query over 2-12 keys, sizes {0,1,63,64,65,128,200,1000} bits, hash counts {0,1,2,3,7,32,40}) '
          'and hash-index histories (insert/remove/build/get over mixed-kind tuples incl. NaN/-0.0/null keys, out-of-range key columns); '
